@@ -11,7 +11,8 @@ cargo test --workspace --no-fail-fast --offline > "$dest/tests_with_change.log" 
 passed=$(grep -E "^test result" "$dest/tests_with_change.log" | awk '{p+=$4; f+=$6} END {print p" passed "f" failed"}')
 failed_names=$(grep -E "^test .* FAILED" "$dest/tests_with_change.log" | tr '\n' ' ')
 bash DEMO/run.sh > "$dest/demo_with_change.log" 2>&1; with=$?
-git stash -q
+# (git stash is shared between worktrees: revert/apply the patch file instead)
+git apply -R "$dest/patch.diff"
 bash DEMO/run.sh > "$dest/demo_without_change.log" 2>&1; without=$?
-git stash pop -q
+git apply "$dest/patch.diff"
 echo "tests: $passed ; failing: $failed_names ; demo exit with change=$with without=$without" | tee "$dest/confirm.txt"
